@@ -67,10 +67,18 @@ def ensure_static_build(targets: list[str] | None = None) -> None:
     WORK.mkdir(exist_ok=True)
     with open(WORK / 'build.lock', 'w') as lock:
         fcntl.flock(lock, fcntl.LOCK_EX)
-        if not (COQ / 'Makefile').exists() or (COQ / '_CoqProject').stat().st_mtime > (
-            COQ / 'Makefile'
-        ).stat().st_mtime:
-            rc, out, err = sh(['coq_makefile', '-f', '_CoqProject', '-o', 'Makefile'], cwd=COQ)
+        # builders append files to _CoqProject before they exist: build from the existing ones only
+        lines = []
+        for ln in (COQ / '_CoqProject').read_text().splitlines():
+            t = ln.strip()
+            if t.endswith('.v') and not (COQ / t).exists():
+                continue
+            lines.append(ln)
+        text = '\n'.join(lines) + '\n'
+        proj = COQ / '_CoqProject.build'
+        if not proj.exists() or proj.read_text() != text or not (COQ / 'Makefile').exists():
+            proj.write_text(text)
+            rc, out, err = sh(['coq_makefile', '-f', '_CoqProject.build', '-o', 'Makefile'], cwd=COQ)
             if rc:
                 raise RuntimeError('coq_makefile failed: ' + err)
         rc, out, err = sh(["make", "-j6"] + list(targets or []), cwd=COQ, timeout=3000)
